@@ -192,6 +192,7 @@ func (e *Env) runC19() *Violation {
 	legacyFinal := len(e.Led.States) - 1
 	// optional current-format replica in the same location
 	ltxState := -1
+	var ltxFirst, ltxLast time.Time // times of the current-format files (if any)
 	if p.Params["ltx"] != 0 {
 		st := genTxn(r, &p.Cfg)
 		st.Rollback = false
@@ -203,6 +204,14 @@ func (e *Env) runC19() *Violation {
 				e.observe("ls")
 				ltxState = e.Led.LastApp
 				e.Res.Probes["ltx_replica_present"]++
+				for _, fi := range e.FS.AllListing() {
+					if ltxFirst.IsZero() || fi.CreatedAt.Before(ltxFirst) {
+						ltxFirst = fi.CreatedAt
+					}
+					if fi.CreatedAt.After(ltxLast) {
+						ltxLast = fi.CreatedAt
+					}
+				}
 			}
 			e.stopLS(ctx)
 		}
@@ -306,7 +315,26 @@ func (e *Env) runC19() *Violation {
 		if useLTX {
 			want, wantErr = ltxState, false
 		} else if ltxState >= 0 && !T.IsZero() {
-			return nil // timestamp arbitration between formats is not modelled here
+			// Both formats present and a timestamp given: only the unambiguous
+			// cases are judged - exactly one format holds a backup that is not
+			// newer than T, so that one must be used.
+			v3Eligible := false
+			for i := range snaps {
+				if !snaps[i].Time.After(T) {
+					v3Eligible = true
+				}
+			}
+			ltxEligible := !ltxFirst.IsZero() && ltxFirst.Before(T)
+			switch {
+			case v3Eligible && !ltxEligible:
+				// legacy expectation (want, wantErr) stands
+				e.Res.Probes["v3_arbitration_only_legacy_eligible"]++
+			case !v3Eligible && ltxEligible && T.After(ltxLast):
+				want, wantErr, useLTX = ltxState, false, true
+				e.Res.Probes["v3_arbitration_only_ltx_eligible"]++
+			default:
+				return nil // both (or neither) eligible: which one is "more recent" is not modelled
+			}
 		}
 		if wantErr {
 			if err == nil {
@@ -370,6 +398,11 @@ func (e *Env) runC19() *Violation {
 	}
 	for _, s := range segs {
 		times = append(times, s.Time.Add(-time.Millisecond), s.Time, s.Time.Add(500*time.Millisecond))
+	}
+	if ltxState >= 0 {
+		// format arbitration with a timestamp: just after the current-format
+		// files, and an hour before / after everything legacy
+		times = append(times, ltxLast.Add(time.Second), base.Add(-time.Hour), clock.Add(time.Hour))
 	}
 	order = r.Perm(len(times))
 	n = 0
